@@ -26,7 +26,9 @@ def run(ck):
     ss = sessions.sessions(ck.rng, ck.tier == "quick")
     lines, mlines, meta = [], [], []
     for i, (disk, ops) in enumerate(ss):
-        line, d, ws = sessions.srv_line(i, disk, ops)
+        # every second session runs with its snapshot tasks delayed pseudo-randomly at their schedule points, so that
+        # tasks the server does not order itself overtake each other
+        line, d, ws = sessions.srv_line(i, disk, ops, jitter=(i if i % 2 else None))
         lines.append(line)
         # model encoding: text ids are positions in `texts`
         texts, tid = [], {}
